@@ -10,6 +10,7 @@ message sizes, faults, timer firings, Close).
 -/
 import KafkaVerif.Lemmas.WriterProgress
 import KafkaVerif.Lemmas.WriterQueued
+import KafkaVerif.Lemmas.WriterQuiesce
 import KafkaVerif.Gen.WriterConsts
 
 namespace KV.C08
@@ -323,6 +324,18 @@ theorem cancelled_call_still_flushed (cfg : Cfg) (hmax : 1 ≤ cfg.maxAttempts) 
   intro i hi
   exact accepted_message_completes cfg hmax _ hr' hlock c
     { C with phase := .returned, result := some .ctx, endSeq := some s.seq } (by simp) (Or.inr ⟨rfl, .ctx, rfl, rfl⟩) i hi
+
+/-- **quiesces_without_further_input** — the whole-writer form of `flushed_without_further_input`: from every reachable
+state in which no call is inside batchMessages there is a continuation made only of internal events (timer expiries,
+queue hand-overs, sender steps, broker answers; no WriteMessages step, no Close step) after which **every** batch of
+every partition writer is completed — acknowledged, or failed permanently / after MaxAttempts attempts — and no call
+record has changed. -/
+theorem quiesces_without_further_input (cfg : Cfg) (hmax : 1 ≤ cfg.maxAttempts) (s : State) (hr : Reachable cfg s)
+    (hlock : s.wlock.isCall = false) :
+    ∃ es s', run cfg s es = some s' ∧ es.all Event.internal = true ∧ s'.calls = s.calls ∧
+      ∀ b B, s'.batches b = some B → ∃ code, B.done = some code := by
+  obtain ⟨es, s', h1, h2, h3, -, h5⟩ := drains cfg hmax s hr (fresh_none_outside_batchMessages cfg s hr hlock)
+  exact ⟨es, s', h1, h2, h3, h5⟩
 
 /-! ### the decision logic of the model is the one in the source (regenerated on every run by go/extract/writer) -/
 
